@@ -144,6 +144,14 @@ decreasing_by simp [List.length_drop]; omega
 
 def asPathLength (p : Profile) (bs : List Nat) : Out Nat := asPathLengthAux p bs 0
 
+/-- AS_PATH bytes as `Attribute::decode` guarantees them: whole segments of type 1..4. -/
+def asPathWf : List Nat → Bool
+  | [] => true
+  | [_] => false
+  | t :: l :: rest => 1 ≤ t && t ≤ 4 && l * 4 ≤ rest.length && asPathWf (rest.drop (l * 4))
+termination_by bs => bs.length
+decreasing_by simp [List.length_drop]; omega
+
 /-- `PathAttribute::attr_as_path_length`. -/
 def Attrs.asPathLen (p : Profile) (a : Attrs) : Out Nat :=
   match a.asPath with
@@ -599,7 +607,7 @@ def Table.dropStale (p : Profile) (t : Table) (addr : Nat) (fam : Fam) (ctr : Op
   t.purge p addr fam (fun e => sameAddr addr e && e.isStale t.flags) ctr false
 
 def Table.dropLlgr (p : Profile) (t : Table) (addr : Nat) (fam : Fam) (ctr : Option Nat) : Out (Table × Res) :=
-  t.purge p addr fam (fun e => sameAddr addr e && e.isLlgr t.flags) ctr false
+  t.purge p addr fam (fun e => sameAddr addr e && t.flags.llgr.contains e.src.id) ctr false
 
 def Table.dropNoLlgr (p : Profile) (t : Table) (addr : Nat) (fam : Fam) (ctr : Option Nat) : Out (Table × Res) :=
   t.purge p addr fam (fun e => sameAddr addr e && e.attr.hasNoLlgr) ctr false
